@@ -199,6 +199,19 @@ class EvolventMachine(MachineMixin, RuleBasedStateMachine):
         self.last = "set_bounds"
 
     @precondition(lambda self: self.ev is not None)
+    @rule(rel=st.sampled_from([5e-6, -5e-6, 2e-7, -2e-7, 1e-9, 3e-16]), which=st.integers(0, 9), as_array=st.booleans())
+    def nudge_bounds(self, rel, which, as_array):
+        # a box that differs from the current one in the sixth, seventh, ... significant digit is another box
+        k = which % self.n
+        hi = list(self.hi)
+        hi[k] = hi[k] + rel * max(abs(hi[k]), hi[k] - self.lo[k])
+        if not (self.lo[k] < hi[k]) or hi[k] == self.hi[k]:
+            return
+        self.trace.append(["set_bounds", list(self.lo), hi, as_array])
+        self.step(self._set_bounds, list(self.lo), hi, as_array)
+        self.cls.add("bounds-nudged")
+
+    @precondition(lambda self: self.ev is not None)
     @rule(shift=st.sampled_from([-1.0, 1.0]))
     def shift_bounds(self, shift):
         # new bounds computed from the object's own bound arrays, one of which is handed back as it is:
